@@ -74,7 +74,7 @@ WORKER_ASSUME = COMMON_ASSUME + [
     "the filterer is arbitrary user code: its verdict per call is recorded, nothing else is assumed about it",
     "a message popped by recv is dropped when the channel is found closed right after (return Ok(None)): the statement's 'until a quit is requested'",
     "event producers (unit sources): the notify back end calls the watcher callback once per OS event; tokio signal streams and stdin deliver what the OS reports; real filesystem operations under native/poll watchers are not decided",
-    "the worker loop around throttle_collect (Handler::new, action handler call, job bookkeeping) is not under contract yet: 'the handler is invoked exactly once per returned batch' rests on reading worker()",
+    "the worker loop around throttle_collect is under contract in unit actionloop (each returned batch goes to the action handler exactly once, in order); Handler::new and the handler itself are stand-ins (arbitrary user code)",
 ]
 PROPS = {
     "C04": dict(claim='Inductive invariant (live children == the child owned by the state) proved by Verus over the real job-task loop and both handlers, for every control, child behaviour and fault; unbounded', trusted="environment stand-ins in prelude/task_env.rs (process-wrap child, tokio select/mpsc, user callbacks, clock), flag_env.rs; rewrite rules of the extractor; listed per run in evidence coverage.trusted_base and assumptions",
@@ -112,10 +112,10 @@ PROPS = {
                 claim="Tag<->SerdeTag conversions proved by Kani for every non-fs tag kind over full value ranges; an arbitrary tag object (all optional fields symbolic) never panics and yields its own kind or the explicit Unknown tag",
                 trusted="CBMC's bit-precise model of the compiled MIR (real code incl. the unsafe new_unchecked calls, no stubs)",
                 technique="Kani loop-free proof harnesses over full-domain symbolic inputs on the real conversion functions (plain harnesses: contract instrumentation is 20x slower on these heap-carrying types)"),
-    "C01": dict(units=["worker", "sources"], level="proof", assumptions=WORKER_ASSUME,
+    "C01": dict(units=["worker", "sources", "actionloop"], level="proof", assumptions=WORKER_ASSUME,
                 claim="throttle_collect proved by Verus: the returned batch is exactly the accepted sub-sequence (urgent, empty or filter-accepted) of the messages it received, never empty; loop invariant over all event streams, verdict sequences and timings",
                 trusted="stand-ins in prelude/worker_env.rs (async_priority_channel receiver, tokio timeout, Changeable throttle, arbitrary filterer, error channel); frame lemmas applied in verified wrappers (units/worker/spec.rs)"),
-    "C02": dict(units=["worker"], level="proof", assumptions=WORKER_ASSUME + ["wall-clock accuracy of tokio timers is not decided; 'arrive within the window' = received by the worker before the return"],
+    "C02": dict(units=["worker", "actionloop"], level="proof", assumptions=WORKER_ASSUME + ["wall-clock accuracy of tokio timers is not decided; 'arrive within the window' = received by the worker before the return"],
                 claim="throttle_collect proved by Verus: a non-urgent batch is not returned before first-event time + throttle, an urgent event is the last one received and is never filtered, the recv timeout never exceeds the rest of the window",
                 trusted="stand-ins in prelude/worker_env.rs (virtual clock: only blocking calls let time pass)"),
     "C15": dict(units=["worker", "errhook", "sources", "fswatch"], level="proof", assumptions=WORKER_ASSUME + ["watch/unwatch failures (unit fswatch): the notify watcher is an abstract map whose calls may fail arbitrarily; notify_multi_path_errors is a stand-in yielding one runtime error per path the notify error names (at least one)"],
@@ -155,6 +155,20 @@ PROPS = {
                              "`for` loops are desugared mechanically (R16) over a stand-in iterator yielding the Vec's elements in order; HashSet iteration order is arbitrary (vx_elems)"],
                 claim="fs::worker (whole function: outer loop, diff loops, unwatch/watch loops, error loops) proved by Verus against an abstract watcher: the worker's record always mirrors the active watcher, an empty configuration releases the watcher, after a fault-free iteration the registered map equals the configured set with its modes and kind, every failed call is reported once per named path and never ends the worker; ConfigWatched::next/Config::signal_change proved not to lose a change between two waits (logical-clock model); unbounded",
                 trusted="stand-ins in prelude/fswatch_env.rs (abstract notify watcher, channels, configuration reads, HashSet, iterator)"),
+    "C05": dict(units=["cliaction", "task"], level="proof",
+                assumptions=TASK_ASSUME + ["the CLI action handler is decided piecewise: the on-busy block (is_running x mode -> controls sent), the queue-mode follow-up task, the --restart/--signal shorthands and the start-up event; what the job does with each control is units task's contracts (C04/C06/C09); the handler's other parts (spawn hook, printing, delay_run sleep, --once) are not decided",
+                             "the closure handed to job.run (screen clearing, banner) is replaced by a marker by exact token match",
+                             "queue mode: `queued` is cleared after the follow-up run's start was processed; a change landing between that start and the clearing sees is_running && queued and does nothing. Whether such a change can be left without a later run is an interleaving of three tasks that contracts on these blocks cannot decide; a timing sweep of the real binary (200 trials around the boundary) did not produce it: NOT decided, not claimed either way",
+                             "clap parsing (conflicts_with between --restart and --on-busy-update) not decided"],
+                claim="Verus proves the on-busy block sends exactly the documented controls per (running, mode): idle -> Start; do-nothing -> nothing; signal -> the configured signal only; restart -> graceful restart with the stop signal/timeout; queue -> at most one follow-up task, which waits for the current run to end and then starts one run; --signal/-r select the mode; start-up event sent iff not --postpone (structural); non-overlap is C04's invariant (same obligations)",
+                trusted="stand-ins in prelude/cliaction_env.rs (Job handle as a control log, atomics), prelude/task_env.rs"),
+    "C08": dict(units=["actionloop", "cliaction", "task", "flag"], level="proof",
+                assumptions=TASK_ASSUME + ["action::worker is proved against stand-ins for LateJoinSet/HashMap/handler: a graceful quit spawns one task per held job (stop_with_signal(signal, grace) then delete().await: item quit_job_task), joins them, joins every job task, then returns; an abort returns at once. That the main task then ends (watchexec.rs select/abort of the other workers) and that dropping LateJoinSet aborts the job tasks and kill_on_drop kills their children is tokio/process-wrap behaviour: NOT decided",
+                             "time bound: each quit task ends when its delete ticket resolves; that this happens within the grace periods is C06/C07/C09 (unit task: timers, tickets) composed by reading, not by one proof",
+                             "process groups: signals and kills go to the group via process-wrap (command/conversions.rs wrappers: C18 decides the wrapping). Whether group members other than the leader outlive a graceful stop when the leader exits inside the grace period is OS/process-wrap behaviour outside any contract here: NOT decided (see DESIGN appendix, D9)",
+                             "CLI: the quit closure and the signal gate are proved; clap parsing and the signal sources are C01's sources unit"],
+                claim="Verus proves action::worker: loop ends only on quit or closed channel; abort quits at once; graceful quit stops-then-deletes every held job with the requested signal/grace and waits for all quit tasks and all job tasks; CLI: quit escalates graceful(stop signal, stop timeout) -> forced -> abort, an unmapped interrupt/terminate leads to exactly that quit; Handler::quit/quit_gracefully set the manner; job-side stop/delete/ticket behaviour is units task/flag (C04/C06/C07/C09 obligations)",
+                trusted="stand-ins in prelude/actionloop_env.rs, cliaction_env.rs, task_env.rs, flag_env.rs"),
     "C11": dict(units=["globset", "ignore"], level="proof",
                 assumptions=["glob matchers (ignore::gitignore::Gitignore built from --filter/--ignore patterns) are uninterpreted functions of (matcher, path, is_dir); num_ignores() > 0 is read as 'filter patterns configured'",
                              "the backing ignore-files filterer is C03's contract (uninterpreted verdict here)",
